@@ -130,6 +130,8 @@ pub struct Summary {
     pub families: BTreeMap<String, u64>,
     pub flavours: BTreeMap<String, u64>,
     pub knobs: BTreeMap<String, u64>,
+    /// (run index, end, family) of runs that did not complete and were not violations of this property
+    pub incomplete: Vec<(u64, String, String)>,
     pub caps: BTreeMap<String, u64>,
     pub waits: BTreeMap<String, u64>,
     pub strategies: BTreeMap<String, u64>,
@@ -260,6 +262,9 @@ impl<'a> RunSource for Src<'a> {
         sum.stalls_planned += cfg.stalls.len() as u64;
         sum.sim_time_ms += o.stats.sim_time_ms;
         bump(&mut sum.ends, o.end.name().to_string());
+        if o.end != sched::End::Completed && sum.incomplete.len() < 40 {
+            sum.incomplete.push((index, o.end.name().to_string(), scn.family.clone()));
+        }
         bump(&mut sum.families, scn.family.clone());
         // per-run simulator knobs (swarm style: each is on in a random subset of the runs)
         for (on, name) in [
@@ -380,6 +385,7 @@ pub fn run_worker(cfg: &WorkerCfg) -> J {
         .set("max_steps", J::UInt(s.max_steps))
         .set("nontrivial", J::UInt(s.nontrivial))
         .set("ends", map_json(&s.ends))
+        .set("incomplete", J::Arr(s.incomplete.iter().map(|(i, e, f)| J::Arr(vec![J::UInt(*i), J::str(e), J::str(f)])).collect()))
         .set("families", map_json(&s.families))
         .set("flavours", map_json(&s.flavours))
         .set("knobs", map_json(&s.knobs))
